@@ -3,7 +3,9 @@ import Helm.Props.C03
 #print axioms Helm.Props.C03.install_failure_marks_failed
 #print axioms Helm.Props.C03.rollback_hook_failure_marks_failed
 #print axioms Helm.Props.C03.rollback_hook_failure_instance
+#print axioms Helm.Props.C03.rollback_resource_failure_marks_failed
 #print axioms Helm.Props.C03.rollback_update_failure_marks_failed
+#print axioms Helm.Props.C03.atomic_install_failure_leaves_nothing
 #print axioms Helm.Props.C03.upgrade_failure_contained
 #print axioms Helm.Props.C03.atomic_upgrade_failure_restores
 #print axioms Helm.Props.C03.upgrade_failure_contained_instance
